@@ -15,49 +15,11 @@ Import ListNotations.
 (* ================================================================================================ *)
 (* 0. the term encoding of pointer-shaped values *)
 
-Fixpoint tlist (xs : list term) : term :=
-  match xs with [] => TNil | x :: r => TPair x (tlist r) end.
-
-(* struct with n fields: tag n >= 0; slice of n elements: tag -(n+1) < 0 (a nil and an empty slice are the same list) *)
-Definition struct_tag (n : nat) : term := TAtom (AInt (Z.of_nat n)).
-Definition slice_tag (n : nat) : term := TAtom (AInt (- Z.of_nat n - 1)).
-
-Fixpoint tenc (x : gval) : option term :=
-  let fix tencs (l : list gval) : option (list term) :=
-    match l with
-    | [] => Some []
-    | a :: r => match tenc a, tencs r with Some t, Some ts => Some (t :: ts) | _, _ => None end
-    end in
-  match x with
-  | GNilPtr => Some TNil
-  | GPtr (GScalar k z) =>
-      if (z <? 0)%Z then None
-      else if N.eqb k var_kind then Some (TVar (Z.to_N z))
-      else if N.eqb k 0 then Some (TAtom (AInt z))
-      else if N.eqb k 1 then Some (TAtom (AStr (Z.to_N z)))
-      else None
-  | GStructPtr fs => option_map (fun l => TPair (struct_tag (length fs)) (tlist l)) (tencs fs)
-  | GSlice _ es => option_map (fun l => TPair (slice_tag (length es)) (tlist l)) (tencs es)
-  | _ => None
-  end.
-
-Fixpoint tencs (l : list gval) : option (list term) :=
-  match l with
-  | [] => Some []
-  | a :: r => match tenc a, tencs r with Some t, Some ts => Some (t :: ts) | _, _ => None end
-  end.
-
-Lemma tenc_struct fs : tenc (GStructPtr fs) = option_map (fun l => TPair (struct_tag (length fs)) (tlist l)) (tencs fs).
+Lemma tenc_struct fs : tenc (GStructPtr fs) = option_map (fun l => TPair (struct_ntag (length fs)) (tlistn l)) (tencs fs).
 Proof. simpl. f_equal. all: induction fs as [|a r IH]; simpl; [reflexivity|]; rewrite IH; reflexivity. Qed.
 
-Lemma tenc_slice n es : tenc (GSlice n es) = option_map (fun l => TPair (slice_tag (length es)) (tlist l)) (tencs es).
+Lemma tenc_slice n es : tenc (GSlice n es) = option_map (fun l => TPair (slice_ntag (length es)) (tlistn l)) (tencs es).
 Proof. simpl. f_equal. all: induction es as [|a r IH]; simpl; [reflexivity|]; rewrite IH; reflexivity. Qed.
-
-Fixpoint senc (s : gsub) : option subst :=
-  match s with
-  | [] => Some []
-  | (k, v) :: r => match tenc v, senc r with Some t, Some ts => Some ((k, t) :: ts) | _, _ => None end
-  end.
 
 Lemma tenc_ptr k z : tenc (GPtr (GScalar k z)) =
   if (z <? 0)%Z then None
@@ -103,8 +65,8 @@ Inductive shape : gval -> term -> Prop :=
 | ShVar i : shape (gvar i) (TVar i)
 | ShScalar k z a : scalar_atom k z = Some a -> cast_var (GPtr (GScalar k z)) = None ->
     is_leaf (GPtr (GScalar k z)) = true -> shape (GPtr (GScalar k z)) (TAtom a)
-| ShStruct fs tl : tencs fs = Some tl -> shape (GStructPtr fs) (TPair (struct_tag (length fs)) (tlist tl))
-| ShSlice n es tl : tencs es = Some tl -> shape (GSlice n es) (TPair (slice_tag (length es)) (tlist tl)).
+| ShStruct fs tl : tencs fs = Some tl -> shape (GStructPtr fs) (TPair (struct_ntag (length fs)) (tlistn tl))
+| ShSlice n es tl : tencs es = Some tl -> shape (GSlice n es) (TPair (slice_ntag (length es)) (tlistn tl)).
 
 Lemma tenc_shape x t : tenc x = Some t -> shape x t.
 Proof.
@@ -209,7 +171,7 @@ Proof.
   (* the fields / elements: a list lemma *)
   assert (Hlist : forall l tl, tencs l = Some tl ->
             forall b, any_loopM (fun e => ghascycle f i e s) l = Some b ->
-            exists f2, occurs f2 i (tlist tl) ts = Some b).
+            exists f2, occurs f2 i (tlistn tl) ts = Some b).
   { induction l as [|a r IHl]; intros tl Hl b0 Ha.
     - simpl in Hl. inversion Hl; subst. simpl in Ha. inversion Ha; subst. exists 1%nat. reflexivity.
     - simpl in Hl. destruct (tenc a) as [ta|] eqn:Ea; [|discriminate].
@@ -222,7 +184,7 @@ Proof.
         destruct (IHl tr eq_refl b0 Ha) as [f3 H3].
         exists (S (Nat.max f2 f3)). rewrite occurs_S. simpl.
         rewrite (occurs_mono f2 i ta ts false H2 (Nat.max f2 f3) ltac:(lia)).
-        exact (occurs_mono f3 i (tlist tr) ts b0 H3 (Nat.max f2 f3) ltac:(lia)). }
+        exact (occurs_mono f3 i (tlistn tr) ts b0 H3 (Nat.max f2 f3) ltac:(lia)). }
   pose proof (tenc_shape y' ty' Hy') as Hsh.
   destruct Hsh as [|j|k z a Hk Hcv Hl|fs tl El|n es tl El].
   - (* nil pointer *) simpl in Hc. inversion Hc; subst. exists (S f). rewrite occurs_S, Hwt. reflexivity.
@@ -233,34 +195,34 @@ Proof.
   - simpl in Hc. destruct (Hlist fs tl El b Hc) as [f2 H2].
     exists (S (Nat.max f (S f2))). rewrite occurs_S.
     rewrite (walkt_mono f ty ts _ Hwt (Nat.max f (S f2)) ltac:(lia)).
-    unfold struct_tag.
+    unfold struct_ntag.
     rewrite (occurs_mono 1 i (TAtom (AInt (Z.of_nat (length fs)))) ts false eq_refl (Nat.max f (S f2)) ltac:(lia)).
-    exact (occurs_mono f2 i (tlist tl) ts b H2 (Nat.max f (S f2)) ltac:(lia)).
+    exact (occurs_mono f2 i (tlistn tl) ts b H2 (Nat.max f (S f2)) ltac:(lia)).
   - simpl in Hc. destruct (Hlist es tl El b Hc) as [f2 H2].
     exists (S (Nat.max f (S f2))). rewrite occurs_S.
     rewrite (walkt_mono f ty ts _ Hwt (Nat.max f (S f2)) ltac:(lia)).
-    unfold slice_tag.
+    unfold slice_ntag.
     rewrite (occurs_mono 1 i (TAtom (AInt (- Z.of_nat (length es) - 1))) ts false eq_refl (Nat.max f (S f2)) ltac:(lia)).
-    exact (occurs_mono f2 i (tlist tl) ts b H2 (Nat.max f (S f2)) ltac:(lia)).
+    exact (occurs_mono f2 i (tlistn tl) ts b H2 (Nat.max f (S f2)) ltac:(lia)).
 Qed.
 
 (* ================================================================================================ *)
 (* 3. unify: the ZipReduce descent with the state as accumulator is micro's unify on the encodings *)
 
 Definition gstep (f : nat) : gval -> gval -> gres -> gres :=
-  fun a b acc => match acc with GOk s1 => gunify f a b s1 | other => other end.
+  fun a b acc => match acc with GROk s1 => gunify f a b s1 | other => other end.
 
 Definition refines (r : gres) (tx ty : term) (ts : subst) : Prop :=
   match r with
-  | GOOF => True
-  | GFail => exists f2, unify f2 tx ty ts = Fail
-  | GOk s' => exists ts' f2, senc s' = Some ts' /\ unify f2 tx ty ts = Ok ts'
+  | GROOF => True
+  | GRFail => exists f2, unify f2 tx ty ts = Fail
+  | GROk s' => exists ts' f2, senc s' = Some ts' /\ unify f2 tx ty ts = Ok ts'
   end.
 
-Lemma zip_oof f : forall xs ys, fst (zip_loop GFail gres_is_fail (gstep f) xs ys GOOF) = GOOF.
+Lemma zip_oof f : forall xs ys, fst (zip_loop GRFail gres_is_fail (gstep f) xs ys GROOF) = GROOF.
 Proof.
   induction xs as [|a xs IH]; intros [|b ys]; simpl; try reflexivity.
-  specialize (IH ys). destruct (zip_loop GFail gres_is_fail (gstep f) xs ys GOOF). exact IH.
+  specialize (IH ys). destruct (zip_loop GRFail gres_is_fail (gstep f) xs ys GROOF). exact IH.
 Qed.
 
 Lemma unify_pair_S f a d a' d' s : unify (S f) (TPair a d) (TPair a' d') s =
@@ -272,7 +234,7 @@ Lemma zip_enc f :
      refines (gunify f x y s) tx ty ts) ->
   forall xs ys txs tys, tencs xs = Some txs -> tencs ys = Some tys -> length xs = length ys ->
   forall s ts, senc s = Some ts ->
-  refines (fst (zip_loop GFail gres_is_fail (gstep f) xs ys (GOk s))) (tlist txs) (tlist tys) ts.
+  refines (fst (zip_loop GRFail gres_is_fail (gstep f) xs ys (GROk s))) (tlistn txs) (tlistn tys) ts.
 Proof.
   intros IH. induction xs as [|a xs IHl]; intros ys txs tys Hx Hy Hlen s ts Hs.
   - destruct ys as [|b ys]; [|discriminate Hlen].
@@ -283,17 +245,17 @@ Proof.
     destruct (tenc b) as [tb|] eqn:Eb; [|discriminate]. destruct (tencs ys) as [tyr|] eqn:Eyr; [|discriminate].
     inversion Hx; inversion Hy; subst txs tys. clear Hx Hy.
     simpl zip_loop. rewrite (tenc_unwrap a ta Ea), (tenc_unwrap b tb Eb).
-    change (gstep f a b (GOk s)) with (gunify f a b s).
+    change (gstep f a b (GROk s)) with (gunify f a b s).
     pose proof (IH a b s ta tb ts Ea Eb Hs) as H1.
     destruct (gunify f a b s) as [| |s1] eqn:Eg.
     + (* out of fuel: carried through *)
       simpl gres_is_fail. cbv iota.
       pose proof (zip_oof f xs ys) as Ho.
-      destruct (zip_loop GFail gres_is_fail (gstep f) xs ys GOOF) as [r log]. simpl in Ho. subst r. exact I.
-    + simpl. destruct H1 as [f2 H2]. exists (S f2). simpl tlist. rewrite unify_pair_S, H2. reflexivity.
+      destruct (zip_loop GRFail gres_is_fail (gstep f) xs ys GROOF) as [r log]. simpl in Ho. subst r. exact I.
+    + simpl. destruct H1 as [f2 H2]. exists (S f2). simpl tlistn. rewrite unify_pair_S, H2. reflexivity.
     + simpl gres_is_fail. cbv iota. destruct H1 as [ts1 [f2 [Hs1 H2]]].
       pose proof (IHl ys txr tyr eq_refl Eyr Hlen s1 ts1 Hs1) as H3.
-      destruct (zip_loop GFail gres_is_fail (gstep f) xs ys (GOk s1)) as [r log]. simpl fst in *.
+      destruct (zip_loop GRFail gres_is_fail (gstep f) xs ys (GROk s1)) as [r log]. simpl fst in *.
       assert (Hne : unify f2 ta tb ts <> OOF) by (rewrite H2; discriminate).
       destruct r as [| |s2]; simpl in *.
       * exact I.
@@ -308,9 +270,9 @@ Qed.
 
 Lemma gbind_refines f i y' s ty' ts : tenc y' = Some ty' -> senc s = Some ts ->
   match gbind f i y' s with
-  | GOOF => True
-  | GFail => exists f2, exts f2 i ty' ts = Fail
-  | GOk s' => exists ts' f2, senc s' = Some ts' /\ exts f2 i ty' ts = Ok ts'
+  | GROOF => True
+  | GRFail => exists f2, exts f2 i ty' ts = Fail
+  | GROk s' => exists ts' f2, senc s' = Some ts' /\ exts f2 i ty' ts = Ok ts'
   end.
 Proof.
   intros Hy Hs. unfold gbind. destruct (ghascycle f i y' s) as [[|]|] eqn:Eh; [| |exact I].
@@ -415,19 +377,19 @@ Proof.
       cbn [negb]. simpl elem_kind. simpl kind_eqb. cbn [negb].
       destruct (Nat.eqb_spec (length fs) (length fs')) as [Elen|Nlen]; cbn [negb].
       * pose proof (zip_enc f IH fs fs' tl tl' El El' Elen s ts Hs) as Hz.
-        change (fun (a b : gval) (acc : gres) => match acc with GOk s1 => gunify f a b s1 | _ => acc end) with (gstep f).
-        destruct (fst (zip_loop GFail gres_is_fail (gstep f) fs fs' (GOk s))) as [| |s'].
+        change (fun (a b : gval) (acc : gres) => match acc with GROk s1 => gunify f a b s1 | _ => acc end) with (gstep f).
+        destruct (fst (zip_loop GRFail gres_is_fail (gstep f) fs fs' (GROk s))) as [| |s'].
         -- exact I.
         -- destruct Hz as [f2 H2]. exists (S (Nat.max (S f) f2)). rewrite Hstep by lia.
-           unfold struct_tag. rewrite Elen. rewrite unify_tag_eq by lia.
+           unfold struct_ntag. rewrite Elen. rewrite unify_tag_eq by lia.
            rewrite (unify_mono f2 _ _ ts ltac:(rewrite H2; discriminate) (Nat.max (S f) f2) ltac:(lia)). exact H2.
         -- destruct Hz as [ts' [f2 [Hs' H2]]]. exists ts', (S (Nat.max (S f) f2)). split; [exact Hs'|].
-           rewrite Hstep by lia. unfold struct_tag. rewrite Elen. rewrite unify_tag_eq by lia.
+           rewrite Hstep by lia. unfold struct_ntag. rewrite Elen. rewrite unify_tag_eq by lia.
            rewrite (unify_mono f2 _ _ ts ltac:(rewrite H2; discriminate) (Nat.max (S f) f2) ltac:(lia)). exact H2.
-      * simpl. exists (S (S f)). rewrite Hstep by lia. unfold struct_tag. apply unify_tag_neq; [lia|lia].
+      * simpl. exists (S (S f)). rewrite Hstep by lia. unfold struct_ntag. apply unify_tag_neq; [lia|lia].
     + (* struct / slice *)
       simpl cast_var. simpl is_leaf. cbn [orb]. unfold zipreduce. simpl. exists (S (S f)). rewrite Hstep by lia.
-      unfold struct_tag, slice_tag. apply unify_tag_neq; [lia|lia].
+      unfold struct_ntag, slice_ntag. apply unify_tag_neq; [lia|lia].
   - (* x' slice *)
     simpl cast_var.
     destruct Sy as [|j|k' z' b Hb Hcv' Hl'|fs' tl' El'|n' es' tl' El'].
@@ -435,22 +397,22 @@ Proof.
     + rewrite cast_var_gvar. apply (Hbind j _ _ Hx'). intros F HF. rewrite unify_S, (walkt_fix _ _ _ _ Wx F HF), (walkt_fix _ _ _ _ Wy F HF). reflexivity.
     + rewrite Hcv', Hl'. simpl is_leaf. cbn [orb gval_eqb]. exists (S f). rewrite Hstep by lia. reflexivity.
     + simpl cast_var. simpl is_leaf. cbn [orb]. unfold zipreduce. simpl. exists (S (S f)). rewrite Hstep by lia.
-      unfold struct_tag, slice_tag. apply unify_tag_neq; [lia|lia].
+      unfold struct_ntag, slice_ntag. apply unify_tag_neq; [lia|lia].
     + (* slice / slice *)
       simpl cast_var. simpl is_leaf. cbn [orb]. unfold zipreduce. simpl is_nil. cbn iota. simpl kind_of. simpl kind_eqb.
       cbn [negb].
       destruct (Nat.eqb_spec (length es) (length es')) as [Elen|Nlen]; cbn [negb].
       * pose proof (zip_enc f IH es es' tl tl' El El' Elen s ts Hs) as Hz.
-        change (fun (a b : gval) (acc : gres) => match acc with GOk s1 => gunify f a b s1 | _ => acc end) with (gstep f).
-        destruct (fst (zip_loop GFail gres_is_fail (gstep f) es es' (GOk s))) as [| |s'].
+        change (fun (a b : gval) (acc : gres) => match acc with GROk s1 => gunify f a b s1 | _ => acc end) with (gstep f).
+        destruct (fst (zip_loop GRFail gres_is_fail (gstep f) es es' (GROk s))) as [| |s'].
         -- exact I.
         -- destruct Hz as [f2 H2]. exists (S (Nat.max (S f) f2)). rewrite Hstep by lia.
-           unfold slice_tag. rewrite Elen. rewrite unify_tag_eq by lia.
+           unfold slice_ntag. rewrite Elen. rewrite unify_tag_eq by lia.
            rewrite (unify_mono f2 _ _ ts ltac:(rewrite H2; discriminate) (Nat.max (S f) f2) ltac:(lia)). exact H2.
         -- destruct Hz as [ts' [f2 [Hs' H2]]]. exists ts', (S (Nat.max (S f) f2)). split; [exact Hs'|].
-           rewrite Hstep by lia. unfold slice_tag. rewrite Elen. rewrite unify_tag_eq by lia.
+           rewrite Hstep by lia. unfold slice_ntag. rewrite Elen. rewrite unify_tag_eq by lia.
            rewrite (unify_mono f2 _ _ ts ltac:(rewrite H2; discriminate) (Nat.max (S f) f2) ltac:(lia)). exact H2.
-      * simpl. exists (S (S f)). rewrite Hstep by lia. unfold slice_tag. apply unify_tag_neq; [lia|lia].
+      * simpl. exists (S (S f)). rewrite Hstep by lia. unfold slice_ntag. apply unify_tag_neq; [lia|lia].
 Qed.
 Print Assumptions gunify_enc.
 
@@ -458,7 +420,7 @@ Print Assumptions gunify_enc.
 (* 4. consequences for the transcribed gomini unify: everything C01 proves of micro's unify *)
 
 Theorem gunify_ok f x y s s' tx ty ts : tenc x = Some tx -> tenc y = Some ty -> senc s = Some ts ->
-  gunify f x y s = GOk s' ->
+  gunify f x y s = GROk s' ->
   exists ts', senc s' = Some ts' /\ (exists ext, ts' = ts ++ ext) /\
               (forall r, sat r ts' <-> sat r ts /\ inst r tx = inst r ty).
 Proof.
@@ -470,14 +432,14 @@ Proof.
 Qed.
 
 Theorem gunify_fail f x y s tx ty ts : tenc x = Some tx -> tenc y = Some ty -> senc s = Some ts ->
-  gunify f x y s = GFail -> ~ exists r, sat r ts /\ inst r tx = inst r ty.
+  gunify f x y s = GRFail -> ~ exists r, sat r ts /\ inst r tx = inst r ty.
 Proof.
   intros Hx Hy Hs Hg [r [Hr He]]. pose proof (gunify_enc f x y s tx ty ts Hx Hy Hs) as H. rewrite Hg in H.
   destruct H as [f2 Hu]. pose proof (unify_complete f2 tx ty ts r Hr He) as Hc. rewrite Hu in Hc. exact Hc.
 Qed.
 
 Theorem gunify_wf f x y s s' tx ty ts : tenc x = Some tx -> tenc y = Some ty -> senc s = Some ts -> wf ts ->
-  gunify f x y s = GOk s' -> exists ts', senc s' = Some ts' /\ wf ts'.
+  gunify f x y s = GROk s' -> exists ts', senc s' = Some ts' /\ wf ts'.
 Proof.
   intros Hx Hy Hs Hwf Hg. pose proof (gunify_enc f x y s tx ty ts Hx Hy Hs) as H. rewrite Hg in H.
   destruct H as [ts' [f2 [Hs' Hu]]]. exists ts'. split; [exact Hs'|]. exact (unify_wf f2 tx ty ts ts' Hwf Hu).
@@ -503,3 +465,169 @@ Print Assumptions gequalo_spec.
    registered pointers are the same variable exactly when the numbers agree *)
 Lemma gvar_inj i j : gvar i = gvar j -> i = j.
 Proof. unfold gvar. intros H. inversion H. apply N2Z.inj. assumption. Qed.
+
+(* ================================================================================================ *)
+(* 5. rewrite (the answers of gomini.Run): over ALL reflecttools values - struct fields, slice elements, map values,
+      interface-typed slots *)
+
+(* y is reachable from x through the containers reflecttools.Map descends into; a variable is not looked into *)
+Inductive subval : gval -> gval -> Prop :=
+| sv_refl x : subval x x
+| sv_step x c y : cast_var x = None -> In c (mslots x) -> subval (unwrap c) y -> subval x y.
+
+Definition gwf_sub (s : gsub) : Prop := forall i v, gassv i s = Some v -> wfb v = true.
+
+Lemma wf_slot_unwrap c : wf_slot c = true -> wfb (unwrap c) = true.
+Proof.
+  destruct c; simpl; intros H; try exact H; try reflexivity.
+  destruct c; try discriminate; simpl in *; exact H.
+Qed.
+
+Lemma wfb_slots x : wfb x = true -> forall c, In c (mslots x) -> wf_slot c = true.
+Proof.
+  intros H c Hc. destruct x; simpl in Hc; try contradiction.
+  - simpl in H. eapply forallb_In; eauto.
+  - destruct isnil; [contradiction|]. simpl in H. eapply forallb_In; eauto.
+  - destruct isnil; [contradiction|]. simpl in H. apply andb_true_iff in H. destruct H as [_ H].
+    apply in_map_iff in Hc. destruct Hc as [e [He Hin]]. subst c.
+    exact (forallb_In (fun e => wf_slot (snd e)) _ e H Hin).
+Qed.
+
+Lemma gwalk_wfb f : forall x s x', wfb x = true -> gwf_sub s -> gwalk f x s = Some x' -> wfb x' = true.
+Proof.
+  induction f as [|f IH]; intros x s x' Hx Hs Hw; [discriminate|].
+  simpl in Hw. destruct (cast_var x) as [i|]; [|inversion Hw; subst; exact Hx].
+  destruct (gassv i s) as [v|] eqn:Eg; [|inversion Hw; subst; exact Hx].
+  eapply IH; [eapply Hs; exact Eg|exact Hs|exact Hw].
+Qed.
+
+Lemma gwalk_unbound f : forall x s x' j, gwalk f x s = Some x' -> cast_var x' = Some j -> gassv j s = None.
+Proof.
+  induction f as [|f IH]; intros x s x' j Hw Hc; [discriminate|].
+  simpl in Hw. destruct (cast_var x) as [i|] eqn:Ec.
+  - destruct (gassv i s) as [v|] eqn:Eg.
+    + eapply IH; eauto.
+    + inversion Hw; subst x'. rewrite Ec in Hc. inversion Hc; subst. exact Eg.
+  - inversion Hw; subst x'. congruence.
+Qed.
+
+(* what Map stores in a slot, seen through the slot *)
+Lemma unwrap_store_cases sl b : wf_slot sl = true ->
+  (forall v, b <> GIface v) ->
+  unwrap (store sl b) = b \/ (b = GNil /\ unwrap (store sl b) = unwrap (zero_of sl)).
+Proof.
+  intros Hw Hb. destruct b; try (left; destruct sl; reflexivity).
+  - right. split; reflexivity.
+  - exfalso. eapply Hb. reflexivity.
+Qed.
+
+Lemma zero_no_var sl y : subval (unwrap (zero_of sl)) y -> cast_var y = None.
+Proof.
+  intros H. assert (Hz : forall z, (z = unwrap (zero_of sl)) -> mslots z = [] /\ cast_var z = None).
+  { intros z Ez. subst z. destruct sl; simpl; split; reflexivity. }
+  inversion H; subst.
+  - apply (Hz _ eq_refl).
+  - destruct (Hz _ eq_refl) as [Hm _]. rewrite Hm in H1. contradiction.
+Qed.
+
+Definition not_iface (b : gval) : Prop := forall v, b <> GIface v.
+
+Lemma rmapM_not_iface g x r : not_iface x -> rmapM g x = Some r -> not_iface r.
+Proof.
+  intros Hx H v E. subst r. unfold rmapM in H. destruct (is_nil x); [inversion H; subst; eapply Hx; reflexivity|].
+  destruct x; try (inversion H; subst; eapply Hx; reflexivity).
+  - destruct (map_loopM g fields); simpl in H; inversion H.
+  - destruct isnil; [inversion H|destruct (map_loopM g elems); simpl in H; inversion H].
+  - destruct isnil; [inversion H|destruct (map_entriesM g entries); simpl in H; inversion H].
+Qed.
+
+Lemma wfb_not_iface x : wfb x = true -> not_iface x.
+Proof. intros H v E. subst x. discriminate H. Qed.
+
+Lemma grewrite_not_iface f x s r : wfb x = true -> gwf_sub s -> grewrite f x s = Some r -> not_iface r.
+Proof.
+  destruct f as [|f]; [discriminate|]. intros Hx Hs H. simpl in H.
+  destruct (gwalk f x s) as [x'|] eqn:Ew; [|discriminate].
+  pose proof (wfb_not_iface _ (gwalk_wfb f x s x' Hx Hs Ew)) as Hn.
+  destruct (cast_var x'); [inversion H; subst; exact Hn|]. eapply rmapM_not_iface; eauto.
+Qed.
+
+(* the answer: no bound variable is left anywhere Map descends *)
+Theorem grewrite_resolved f : forall x s r, wfb x = true -> gwf_sub s -> grewrite f x s = Some r ->
+  forall y, subval r y -> forall i, cast_var y = Some i -> gassv i s = None.
+Proof.
+  induction f as [|f IH]; intros x s r Hx Hs H y Hy i Hi; [discriminate|].
+  simpl in H. destruct (gwalk f x s) as [x'|] eqn:Ew; [|discriminate].
+  pose proof (gwalk_wfb f x s x' Hx Hs Ew) as Hx'.
+  destruct (cast_var x') as [j|] eqn:Ec.
+  - (* an unbound variable: kept *)
+    inversion H; subst r. inversion Hy; subst.
+    + eapply gwalk_unbound; eauto.
+    + congruence.
+  - (* the children are rewritten *)
+    assert (Hchild : forall sl b, wf_slot sl = true -> grewrite f (unwrap sl) s = Some b ->
+              forall y, subval (unwrap (store sl b)) y -> forall i, cast_var y = Some i -> gassv i s = None).
+    { intros sl b Hsl Hb y0 Hy0 i0 Hi0.
+      pose proof (grewrite_not_iface f (unwrap sl) s b (wf_slot_unwrap sl Hsl) Hs Hb) as Hnb.
+      destruct (unwrap_store_cases sl b Hsl Hnb) as [E|[E1 E2]].
+      - rewrite E in Hy0. exact (IH (unwrap sl) s b (wf_slot_unwrap sl Hsl) Hs Hb y0 Hy0 i0 Hi0).
+      - rewrite E2 in Hy0. apply zero_no_var in Hy0. congruence. }
+    assert (Hloop : forall l rl, forallb wf_slot l = true -> map_loopM (fun e => grewrite f e s) l = Some rl ->
+              forall c, In c rl -> forall y, subval (unwrap c) y -> forall i, cast_var y = Some i -> gassv i s = None).
+    { induction l as [|sl l IHl]; intros rl Hwl Hm c Hc.
+      - simpl in Hm. inversion Hm; subst. contradiction.
+      - simpl in Hm. simpl in Hwl. apply andb_true_iff in Hwl. destruct Hwl as [Hsl Hwl].
+        destruct (grewrite f (unwrap sl) s) as [b|] eqn:Eb; [|discriminate].
+        destruct (map_loopM (fun e => grewrite f e s) l) as [r0|] eqn:Er; [|discriminate].
+        inversion Hm; subst rl. destruct Hc as [Hc|Hc].
+        + subst c. exact (Hchild sl b Hsl Eb).
+        + exact (IHl r0 Hwl eq_refl c Hc). }
+    assert (Hent : forall l rl, forallb (fun e => wf_slot (snd e)) l = true ->
+              map_entriesM (fun e => grewrite f e s) l = Some rl ->
+              forall c, In c (map snd rl) -> forall y, subval (unwrap c) y -> forall i, cast_var y = Some i -> gassv i s = None).
+    { induction l as [|[k sl] l IHl]; intros rl Hwl Hm c Hc.
+      - simpl in Hm. inversion Hm; subst. contradiction.
+      - simpl in Hm. simpl in Hwl. apply andb_true_iff in Hwl. destruct Hwl as [Hsl Hwl].
+        destruct (grewrite f (unwrap sl) s) as [b|] eqn:Eb; [|discriminate].
+        destruct (map_entriesM (fun e => grewrite f e s) l) as [r0|] eqn:Er; [|discriminate].
+        inversion Hm; subst rl. destruct Hc as [Hc|Hc].
+        + subst c. exact (Hchild sl b Hsl Eb).
+        + exact (IHl r0 Hwl eq_refl c Hc). }
+    (* r itself is not a variable, and its slots are the rewritten children *)
+    assert (Hleaf : r = x' -> mslots x' = [] -> gassv i s = None).
+    { intros E Hm. subst r. inversion Hy; subst; [congruence|]. rewrite Hm in H1. contradiction. }
+    unfold rmapM in H. destruct (is_nil x') eqn:En.
+    { inversion H; subst r. apply Hleaf; [reflexivity|]. destruct x'; try discriminate; reflexivity. }
+    destruct x' as [|v| |fields|v|fields|n elems|n entries|k z];
+      try (inversion H; subst r; apply Hleaf; reflexivity).
+    + destruct (map_loopM (fun e => grewrite f e s) fields) as [rl|] eqn:Em; simpl in H; [|discriminate].
+      inversion H; subst r. inversion Hy; subst; [discriminate Hi|].
+      simpl in H1. simpl in Hx'. exact (Hloop fields rl Hx' Em c H1 y H2 i Hi).
+    + destruct n.
+      * inversion H; subst r. apply Hleaf; reflexivity.
+      * destruct (map_loopM (fun e => grewrite f e s) elems) as [rl|] eqn:Em; simpl in H; [|discriminate].
+        inversion H; subst r. inversion Hy; subst; [discriminate Hi|].
+        simpl in H1. simpl in Hx'. exact (Hloop elems rl Hx' Em c H1 y H2 i Hi).
+    + destruct n.
+      * inversion H; subst r. apply Hleaf; reflexivity.
+      * destruct (map_entriesM (fun e => grewrite f e s) entries) as [rl|] eqn:Em; simpl in H; [|discriminate].
+        inversion H; subst r. inversion Hy; subst; [discriminate Hi|].
+        simpl in H1. simpl in Hx'. apply andb_true_iff in Hx'. destruct Hx' as [_ Hx'].
+        exact (Hent entries rl Hx' Em c H1 y H2 i Hi).
+Qed.
+Print Assumptions grewrite_resolved.
+
+(* the answer has the kind of the (walked) query: never a bare key, never another container *)
+Theorem grewrite_kind f x s r : grewrite (S f) x s = Some r ->
+  exists x', gwalk f x s = Some x' /\ kind_of r = kind_of x' /\ (cast_var x' <> None -> r = x').
+Proof.
+  simpl. destruct (gwalk f x s) as [x'|]; [|discriminate]. intros H. exists x'. split; [reflexivity|].
+  destruct (cast_var x') eqn:Ec; [inversion H; subst; split; [reflexivity|reflexivity]|].
+  split; [|intros Hn; congruence].
+  unfold rmapM in H. destruct (is_nil x'); [inversion H; reflexivity|].
+  destruct x'; try (inversion H; reflexivity).
+  - destruct (map_loopM _ fields); simpl in H; inversion H; reflexivity.
+  - destruct isnil; [inversion H; reflexivity|destruct (map_loopM _ elems); simpl in H; inversion H; reflexivity].
+  - destruct isnil; [inversion H; reflexivity|destruct (map_entriesM _ entries); simpl in H; inversion H; reflexivity].
+Qed.
+Print Assumptions grewrite_kind.
